@@ -235,7 +235,7 @@ Section NodeModel.
   (* ---- _write_to_pipe ---- *)
   Definition write_to_pipe (tn tp : Z) (is_mc : bool) (fuel : nat) : NM bool :=
     n <- nget ;;
-    if tn =? n_addr n then enqueue_fb
+    if (tn =? n_addr n) && negb is_mc then enqueue_fb
     else
       rf (set_auto_ack_attr B (PInt (62 + zb (negb is_mc)))) ;;;
       rf (set_listen B false) ;;;
@@ -343,6 +343,7 @@ Section NodeModel.
         else if negb (n_addr n =? NET_DEFAULT) then
           write_ k (to_node h) S_ROUTED ;;; nret (true, 0)
         else nret (true, msg_t)
+      else if to_node h =? NET_MULTICAST then nret (true, 0)
       else if negb (n_addr n =? NET_DEFAULT) then
         write_ k (to_node h) S_ROUTED ;;; nret (true, 0)
       else nret (true, msg_t)
